@@ -168,16 +168,21 @@ struct no_derive { };
 // NOPS operands of element type T (values from domain `dom`; opmod 1: operand 0 is a 0/1 mask); fn = the functor; direct(ops..., attrs...) =
 // the view call; decode(LL) -> std::tuple of attribute objects; derive(view) -> std::tuple of functor attributes taken from the direct view
 // (generic functors that are driven with view.attributes()); space = the finite input space of the program.
-template <int NOPS_, class T_, class Fn, class Direct, class Decode, class Derive = no_derive> struct prog_t {
+struct no_wrap { template <class Ops> const Ops& operator()(const Ops& ops) const { return ops; } };
+template <int NOPS_, class T_, class Fn, class Direct, class Decode, class Derive = no_derive, class Wrap = no_wrap> struct prog_t {
     static constexpr int NOPS = NOPS_; using T = T_;
-    const char* name; int dom; int opmod; Fn fn; Direct direct; Decode decode; Space space; Derive derive;
+    const char* name; int dom; int opmod; Fn fn; Direct direct; Decode decode; Space space; Derive derive; Wrap wrap;
     static constexpr bool derived = !std::is_same_v<Derive, no_derive>;
 };
 template <int NOPS, class T, class Fn, class Direct, class Decode> inline auto prog(const char* name, int dom, Fn fn, Direct direct, Decode decode, Space space, int opmod = 0) {
-    return prog_t<NOPS, T, Fn, Direct, Decode>{name, dom, opmod, fn, direct, decode, std::move(space), no_derive{}};
+    return prog_t<NOPS, T, Fn, Direct, Decode>{name, dom, opmod, fn, direct, decode, std::move(space), no_derive{}, no_wrap{}};
 }
 template <int NOPS, class T, class Fn, class Direct, class Decode, class Derive> inline auto prog_derived(const char* name, int dom, Fn fn, Direct direct, Decode decode, Derive derive, Space space) {
-    return prog_t<NOPS, T, Fn, Direct, Decode, Derive>{name, dom, 0, fn, direct, decode, std::move(space), derive};
+    return prog_t<NOPS, T, Fn, Direct, Decode, Derive>{name, dom, 0, fn, direct, decode, std::move(space), derive, no_wrap{}};
+}
+// operands that are themselves views: wrap(tuple of arrays) -> tuple of the operands handed to the functor and to the direct call
+template <int NOPS, class T, class Fn, class Direct, class Decode, class Wrap> inline auto prog_wrapped(const char* name, int dom, Fn fn, Direct direct, Decode decode, Wrap wrap, Space space) {
+    return prog_t<NOPS, T, Fn, Direct, Decode, no_derive, Wrap>{name, dom, 0, fn, direct, decode, std::move(space), no_derive{}, wrap};
 }
 template <class V> inline const auto& unwrapped(const V& v) { if constexpr (meta::is_maybe_v<V>) return *v; else return v; }
 template <class T, size_t... I> inline auto make_ops(const Case& c, int dom, int opmod, std::index_sequence<I...>) {
@@ -190,7 +195,8 @@ template <class P> inline Outcome run_prog(const P& p, const Case& c) {
     constexpr int N = P::NOPS;
     long split = c.a[0][0];
     if ((int)c.a.size() < 1 + N) nmc::die("currying case: wrong number of fields");
-    const auto ops = make_ops<typename P::T>(c, p.dom, p.opmod, std::make_index_sequence<(size_t)N>{});
+    const auto arrays = make_ops<typename P::T>(c, p.dom, p.opmod, std::make_index_sequence<(size_t)N>{});
+    const auto& ops = p.wrap(arrays);
     const LL attrs(c.a.begin() + 1 + N, c.a.end());
     const auto at = p.decode(attrs);
     const auto v = std::apply([&](const auto&... x) { return std::apply([&](const auto&... a) { return p.direct(x..., a...); }, at); }, ops);
